@@ -506,56 +506,62 @@ def rule_counter(ctx) -> None:
     chk = ctx.chk
     M = 1 << 32
     inc = ctx.own(SYM, "Counter", "increment")
-    cex = None
-    n = 0
-    for c in (0, 1, 5, M - 3, M - 2, M - 1):
-        for v in (0, 1, 2, 3, 7, M - 1, M, M + 1):
-            ev = ordereval.Evaluator({"self._ctr": c, "value": v})
-            try:
-                out = ev.run(A.body_of(inc.node))
-            except ordereval.Unsupported as e:
-                raise AnalysisError(f"C09.counter: increment left the fragment: {e}")
-            n += 1
-            got = ev.env.get("self._ctr")
-            ok = isinstance(got, int) and (got - (c + v)) % M == 0 and (got == c + v or 0 <= got < M)
-            if not ok and cex is None:
-                cex = (c, v, got)
-    chk.decide(cex is None, "C09.counter.increment", inc.qual, f"counter advances by exactly its argument (mod 2**32 at most) on {n} boundary points",
-               f"ctr={cex[0]:#x} + {cex[1]:#x} -> {cex[2]:#x}" if cex and isinstance(cex[2], int) else f"{cex}", "ctr + value (optionally reduced mod 2**32)", A.loc(SYM, inc.node))
     init = ctx.own(SYM, "Counter", "__init__")
     val = ctx.own(SYM, "Counter", "value")
-    st = {norm(s.targets[0]): s.value for s in A.walk_no_nested(init.node) if isinstance(s, ast.Assign)}
-    fold = lambda e: ctx.prog.fold(e, init.module)  # noqa: E731
-    ok = False
-    detail = ""
-    r = A.returns_in(val.node)
-    try:
-        nonce_part = st["self._nonce"]
-        ctr_part = st["self._ctr"]
-        k1 = fold(nonce_part.slice.upper)
-        fb = ctr_part
-        k2 = fold(fb.args[0].slice.lower)
-        order_in = norm(fb.args[1])
-        e = r[0].value
-        tb = e.right
-        w = fold(tb.args[0])
-        order_out = norm(tb.args[1])
-        order_attr = norm(st["self._ctr_byteorder_encoding"])
-        # the block is checked to be 16 bytes, so an index from the end and one from the start denote the same split point
-        ok = (isinstance(k1, int) and isinstance(k2, int) and k1 % 16 == k2 % 16 == 16 - w and w == 4 and norm(e.left) == "self._nonce" and norm(tb.func.value) == "self._ctr" and A.call_name(fb) == "from_bytes"
-              and order_in.replace("self._ctr_byteorder_encoding", order_attr) == order_out.replace("self._ctr_byteorder_encoding", order_attr)
-              and nonce_part.slice.lower is None and fb.args[0].slice.upper is None)
-        detail = f"nonce[:{k1}] | ctr=from_bytes(nonce[{k2}:], {order_in}) -> value = _nonce + _ctr.to_bytes({w}, {order_out})"
-    except (KeyError, AttributeError, IndexError, TypeError) as ex:
-        raise AnalysisError(f"C09.counter.layout: shape changed ({ex})")
-    chk.decide(ok, "C09.counter.layout", f"{SYM}::Counter", detail, detail, "nonce[:-4] | 4-byte counter, same byte order for reading and writing", A.loc(SYM, init.node))
-    # ctr_value offsets the starting counter additively
-    ifs = [s for s in A.body_of(init.node) if isinstance(s, ast.If) and norm(s.test) == "ctr_value is not None"]
-    ok2 = False
-    if ifs:
-        b = ifs[0].body
-        ok2 = len(b) == 1 and norm(b[0]) in ("self._ctr += ctr_value", "self.increment(ctr_value)", "self._ctr = self._ctr + ctr_value")
-    chk.decide(ok2, "C09.counter.start", init.qual, "ctr_value is added to the counter word of the nonce", norm(ifs[0])[:100] if ifs else "", "self._ctr += ctr_value", A.loc(SYM, init.node))
+    kcls = ctx.cls(SYM, "Counter")
+    Obj = ordereval.Obj
+    # The class evaluated as an object model (constructor, `value`, `increment` are stepped into; attribute names are whatever the
+    # class uses): value = nonce[:12] | (counter word of the nonce + ctr_value + increments) in the SAME byte order it was read with.
+    sym_map = {"Endianness.LITTLE": Obj(value="little"), "Endianness.BIG": Obj(value="big")}
+    calls = ctx.model_calls(None, sym_map, classes={"Counter": kcls})
+
+    def run_m(fn, env):
+        try:
+            return ordereval.Evaluator(env, ctx.fold_sym(fn, sym_map), opaque_return=False, call_value=calls).run(A.body_of(fn.node))
+        except ordereval.Unsupported as e:
+            raise AnalysisError(f"C09.counter: {fn.qual} left the fragment: {e}")
+    probs_layout, probs_start, probs_inc = [], [], []
+    n = 0
+    NONCE = bytes(range(0xA0, 0xAC))
+    for order in ("little", "big"):
+        for c0 in (0, 1, 0x01020304, M - 40, M - 11):  # up to 2**32 - 1; the behaviour AT the wrap is the subject of C09.counter.width
+            for start in (None, 0, 5):
+                me = Obj(_cls=kcls)
+                env = {"self": me, "nonce": NONCE + c0.to_bytes(4, order), "ctr_value": start, "ctr_byteorder_encoding": Obj(value=order)}
+                out = run_m(init, env)
+                n += 1
+                if out.kind == "raise":
+                    probs_layout.append(f"a 16-byte nonce is rejected ({order}, counter word {c0:#x})")
+                    continue
+                if c0 + (start or 0) >= M:
+                    continue
+                v = run_m(val, {"self": me})
+                want_b = NONCE + (c0 + (start or 0)).to_bytes(4, order)
+                got_b = bytes(v.value) if v.kind == "return" and isinstance(v.value, (bytes, bytearray)) else None
+                if got_b != want_b:
+                    (probs_start if start else probs_layout).append(f"{order}-endian counter word {c0:#x}, ctr_value {start}: value {got_b.hex() if got_b else v.kind}, expected {want_b.hex()}")
+                    continue
+                if c0 + (start or 0) >= M:
+                    continue
+                for k in (1, 2, 7):
+                    c1 = c0 + (start or 0) + k
+                    if c1 >= M:
+                        break
+                    run_m(inc, {"self": me, "value": k})
+                    v2 = run_m(val, {"self": me})
+                    want2 = NONCE + c1.to_bytes(4, order)
+                    got2 = bytes(v2.value) if v2.kind == "return" and isinstance(v2.value, (bytes, bytearray)) else None
+                    if got2 != want2:
+                        probs_inc.append(f"{order}-endian, counter {c0 + (start or 0):#x} + {k}: value {got2.hex() if got2 else v2.kind}, expected {want2.hex()}")
+                    c0 = c1 - (start or 0)
+    for bad_nonce in (bytes(15), bytes(17), "x" * 16):
+        out = run_m(init, {"self": Obj(_cls=kcls), "nonce": bad_nonce, "ctr_value": None, "ctr_byteorder_encoding": Obj(value="little")})
+        if out.kind != "raise":
+            probs_layout.append(f"nonce {bad_nonce!r:.20} is accepted")
+    chk.decide(not probs_inc, "C09.counter.increment", inc.qual, "counter advances by exactly its argument (observed through `value`)", "; ".join(probs_inc[:2]), "ctr + value", A.loc(SYM, inc.node))
+    chk.decide(not probs_layout, "C09.counter.layout", f"{SYM}::Counter", f"value = nonce[:12] | 4-byte counter, same byte order for reading and writing; only 16-byte nonces accepted ({n} models)",
+               "; ".join(probs_layout[:2]), "nonce[:-4] | 4-byte counter, same byte order for reading and writing", A.loc(SYM, init.node))
+    chk.decide(not probs_start, "C09.counter.start", init.qual, "ctr_value is added to the counter word of the nonce", "; ".join(probs_start[:2]), "counter word + ctr_value", A.loc(SYM, init.node))
     # bounded width: the 4-byte encoding of an accumulator that is never reduced (known finding, see DESIGN.md)
     reduced = any(isinstance(n2, ast.BinOp) and isinstance(n2.op, (ast.Mod, ast.BitAnd)) for f in (inc, init, val) for n2 in ast.walk(f.node))
     if not reduced:
